@@ -4,7 +4,7 @@
 # then runs the quick tier of each listed check against it.
 set -u
 P=$(readlink -f "$1"); shift
-W=/root/scratch/mut
+W=${W:-/root/scratch/mut}
 git -C $W checkout -q --detach $(git -C /repo rev-parse HEAD) 2>/dev/null
 git -C $W checkout -- . && git -C $W clean -fdq
 if ! git -C $W apply "$P"; then echo "PATCH-DOES-NOT-APPLY"; exit 3; fi
